@@ -47,7 +47,9 @@ SCENARIOS_THOROUGH = [
     {"name": "three2", "threads": [["w", "w"], ["r", "w"], ["w", "r"]]},
     {"name": "four", "threads": [["w"], ["r"], ["w"], ["r"]]},
 ]
-EXPLORE = ("wr", "ww", "rwr")
+# exhaustive exploration on the code: two-thread scenarios only (with three threads two spinners can wake each other for
+# ever under the scheduler's lowest-eligible-thread default, which would be reported as a timeout of the lock)
+EXPLORE = ("wr", "ww", "wrw")
 STRESS = {"name": "s16", "threads": [list("rrwrrrwr"), list("wrrrrwrr"), list("rrrrwrrw"), list("rwrrrrrr")] * 4}
 
 
@@ -65,6 +67,18 @@ def mc(d, sc, mut="none", tag="", fair=False):
                           invariants=("Exclusion", "NoDeadlock"), properties=("Progress", "Terminates") if fair else ())
 
 
+def load_meta(path):
+    """Per-execution records written by the harness; a harness that died leaves a truncated last line."""
+    out = []
+    if os.path.exists(path):
+        for l in open(path):
+            try:
+                out.append(json.loads(l))
+            except ValueError:
+                pass
+    return out
+
+
 def collect(ctx, exe, mode, sc, arg, kind, executions, timeout=900):
     base = os.path.join(ctx.scratch, "%s.%s" % (sc["name"], kind))
     scf = base + ".scn"
@@ -77,7 +91,47 @@ def collect(ctx, exe, mode, sc, arg, kind, executions, timeout=900):
         exs.append([{"e": "Timeout" if rc == "timeout" else "Crash", "rc": str(rc), "stderr": err[-300:]}])
     for e in exs:
         executions.append((sc["name"], kind, e))
-    return [json.loads(l) for l in open(meta)] if os.path.exists(meta) else []
+    return load_meta(meta)
+
+
+def full_transition_tests(g, max_tests, rng):
+    """One test per transition of the state graph (shortest path to the transition's source, the transition, then a
+    random walk to a terminal state): complete schedules, so the replay never depends on the scheduler's default
+    policy.  Returns [(labels, end node)]."""
+    from collections import deque
+    pred = {}
+    dq = deque()
+    for i in g.init:
+        pred[i] = None
+        dq.append(i)
+    while dq:
+        u = dq.popleft()
+        for lab, v in g.edges.get(u, ()):
+            if v not in pred:
+                pred[v] = (u, lab)
+                dq.append(v)
+
+    def path_to(u):
+        p = []
+        while pred[u] is not None:
+            u, lab = pred[u]
+            p.append(lab)
+        p.reverse()
+        return p
+    trans = [(u, lab, v) for u in g.edges if u in pred for lab, v in g.edges[u] if v != u]
+    if len(trans) > max_tests:
+        trans = rng.sample(trans, max_tests)
+    out = []
+    for u, lab, v in trans:
+        labels = path_to(u) + [lab]
+        while True:
+            es = [e for e in g.edges.get(v, ()) if e[1] != v]
+            if not es:
+                break
+            l2, v = rng.choice(es)
+            labels.append(l2)
+        out.append((labels, v))
+    return out
 
 
 def sched_of(labels):
@@ -103,9 +157,15 @@ def run(ctx):
 
     cover = ("Begin", "RdIn", "RdSpin", "WrWin", "WrSpin1", "WrRin", "WrSpin2", "LockFence", "CsLeave", "UnlockFence", "RdOut", "WrAnd")
 
-    def job_fair(sc):
+    def job_fair(sc, skip=()):
         mod, cfg = mc(d, sc, tag="_fair", fair=True)
-        return ("check", sc["name"], mod, cfg, tlc.check(d, mod, cfg, must_cover=cover, workers=1, timeout=1500))
+        r = tlc.check(d, mod, cfg, coverage=True, workers=1, timeout=1500)
+        # vacuity guard on the number of states *generated* by each action (a spin exit often leads to a state first
+        # reached through the non-blocking path, so it adds no new distinct state)
+        for a in cover:
+            if r.ok and a not in skip and r.coverage.get(a, (0, 0))[1] == 0:
+                raise tlc.TLCError("vacuity guard: action %s of %s never taken in %s" % (a, mod, cfg))
+        return ("check", sc["name"], mod, cfg, r)
 
     def job_mut(sc, mut):
         mod, cfg = mc(d, sc, mut=mut, tag="_" + mut)
@@ -117,7 +177,7 @@ def run(ctx):
         return ("graph", sc["name"], mod, cfg, r, g)
 
     jobs = [lambda: ("check", "RW", "RW", "RW.cfg", tlc.check(ctx.spec("RWLock"), "RW", "RW.cfg", workers=1)),
-            lambda: job_fair(byname["three"]), lambda: job_fair(byname["www"]),
+            lambda: job_fair(byname["three"], skip=("WrSpin1",)), lambda: job_fair(byname["www"]),
             lambda: job_mut(byname["wr"], "fullword"), lambda: job_mut(byname["www"], "woutfirst")]
     jobs += [(lambda sc=sc: job_graph(sc)) for sc in scen]
     ctx.scratch
@@ -141,12 +201,18 @@ def run(ctx):
     for sc in scen:
         g = graphs[sc["name"]]
         paths, total, exhaustive = tlc.maximal_paths(g, limit=nwalks, rng=ctx.rng)
+        known = set(sched_of(labels) for labels, end in paths)
+        ntests = 0
+        for labels, end in full_transition_tests(g, ntrans, ctx.rng):
+            if sched_of(labels) not in known:
+                known.add(sched_of(labels))
+                paths.append((labels, end))
+                ntests += 1
         scheds = [sched_of(labels) for labels, end in paths]
-        tests = tlc.transition_tests(g, max_tests=ntrans, rng=ctx.rng)
-        tsched = sorted(set(sched_of(t) for t in tests) - set(scheds))
+        tsched = [None] * ntests
         schedf = os.path.join(ctx.scratch, sc["name"] + ".sched")
         with open(schedf, "w") as f:
-            f.write("\n".join(scheds + tsched) + "\n")
+            f.write("\n".join(scheds) + "\n")
         metas = collect(ctx, exe, "replay", sc, schedf, "replay", executions)
         for (labels, end), s, m in zip(paths, scheds, metas):
             lab = tlc.parse_state_label(g.nodes[end])
@@ -156,12 +222,12 @@ def run(ctx):
                 ctx.divergences += 1
                 ctx.sample({"divergence": {"scenario": sc["name"], "schedule": s, "real_schedule": m["sched"], "model": want, "real": got,
                                            "overlaps": m["overlaps"]}}, limit=6)
-        if len(metas) != len(scheds) + len(tsched):
+        if len(metas) != len(scheds):
             ctx.divergences += 1
-            ctx.sample({"divergence": {"scenario": sc["name"], "schedules": len(scheds) + len(tsched), "executed": len(metas)}}, limit=6)
-        total_sched += len(scheds) + len(tsched)
+            ctx.sample({"divergence": {"scenario": sc["name"], "schedules": len(scheds), "executed": len(metas)}}, limit=6)
+        total_sched += len(scheds)
         info = {"name": sc["name"], "threads": sc["threads"], "model_states": len(g.nodes), "model_paths_total": total,
-                "walks_replayed": len(scheds), "transition_tests": len(tsched), "paths_exhaustive": exhaustive}
+                "walks_replayed": len(scheds) - ntests, "transition_tests": ntests, "paths_exhaustive": exhaustive}
         if sc["name"] in EXPLORE:
             metas = collect(ctx, exe, "explore", sc, str(30000 if ctx.quick else 1000000), "explore", executions, timeout=1500)
             last = metas[-1] if metas else {}
